@@ -1101,7 +1101,10 @@ def convert_data_to_arr_list_and_keys(
         array = dict(data)
         return list(array.values()), list(array.keys())
     elif isinstance(data, (tuple, list)):
-        if np.ndim(data[0]) == 0:
+        # (np.ndim would convert an Arrow array to numpy just to count its dimensions, which
+        # is slow and fails outright for some dictionary-typed chunked arrays)
+        first_is_arrow = isinstance(data[0], (pa.Array, pa.ChunkedArray))
+        if not first_is_arrow and np.ndim(data[0]) == 0:
             try:
                 data = np.array(data)
             except ValueError:
